@@ -67,8 +67,9 @@ func (v *Vue) evalAttributes(ctx VueContext, n *html.Node) (map[string]any, erro
 				}
 			}
 			newAttrs = append(newAttrs, html.Attribute{
-				Key: boundName,
-				Val: boundValue,
+				Namespace: a.Namespace, // xlink:href in <svg>
+				Key:       boundName,
+				Val:       boundValue,
 			})
 		}
 	}
